@@ -73,14 +73,15 @@ type mvb struct {
 	lastSent  uint64
 	snap      [2]uint64
 	snapValid bool
-	all       []*mev // every event fed in this session, in order
-	docs      []*mev // those delivered to the consumer
-	pending   []*mev // delivered, not acknowledged (delivery order)
-	settled   []*mev // in settlement order
-	consumed  int    // consumer events of this vb already matched
-	maxSettle uint64 // max(resume, settled seqs)
-	dAdvanced bool   // position advanced by an ack or a non-document stream event (C05's D)
-	dSeq      uint64 // furthest such position
+	all       []*mev  // every event fed in this session, in order
+	docs      []*mev  // those delivered to the consumer
+	pending   []*mev  // delivered, not acknowledged (delivery order)
+	settled   []*mev  // in settlement order
+	consumed  int     // consumer events of this vb already matched
+	maxSettle uint64  // max(resume, settled seqs)
+	maxTuple  ckTuple // the position (4-tuple) of that event
+	dAdvanced bool    // position advanced by an ack or a non-document stream event (C05's D)
+	dSeq      uint64  // furthest such position
 	tuples    map[ckTuple]bool
 	dead      bool
 	markers   int
@@ -102,6 +103,7 @@ type session struct {
 	meta   *fakeMeta
 	cons   *fakeConsumer
 	disc   *fakeDiscovery
+	discI  stream.VBucketDiscovery // optional: a real discovery object instead of the fake (C16)
 	hand   *fakeHandler
 	st     stream.Stream
 	stopCh chan struct{}
@@ -128,6 +130,9 @@ type session struct {
 	lo, hi        int      // currently assigned range
 	old           []*oldEv // events of earlier sessions of this stream object (before a rebalance)
 	stopped       bool
+	onRebalance   func(op hOp) (lo, hi int) // C16: announce a new membership through the real discovery
+	rebalances    int
+	scrapeClosed  func()
 }
 
 type oldEv struct {
@@ -167,6 +172,12 @@ func newSession(sc *hScenario, oracles ...string) *session {
 
 // open starts a (new) stream session on the same durable store and server history.
 func (s *session) open() {
+	s.openDeferred()
+	s.openNow()
+}
+
+// openDeferred builds the stream object without opening it; openNow opens it and derives the model.
+func (s *session) openDeferred() {
 	s.sessionNo++
 	s.cons = &fakeConsumer{}
 	s.disc = &fakeDiscovery{}
@@ -182,9 +193,16 @@ func (s *session) open() {
 		}
 		s.cl.setHigh(vb, h)
 	}
-	nOpens := len(s.cl.openLog())
+	var disc stream.VBucketDiscovery = s.disc
+	if s.discI != nil {
+		disc = s.discI
+	}
 	s.st = stream.NewStream(s.cl, s.meta, s.cfg, &couchbase.Version{Major: 7, Minor: 6}, &couchbase.BucketInfo{BucketType: "membase"},
-		s.disc, s.cons, map[uint32]string{}, s.stopCh, s.hand, tracing.NewTracerComponent())
+		disc, s.cons, map[uint32]string{}, s.stopCh, s.hand, tracing.NewTracerComponent())
+}
+
+func (s *session) openNow() {
+	nOpens := len(s.cl.openLog())
 	s.st.Open()
 	s.buildModel(nOpens)
 	s.settledAtSave = map[uint16]int{}
@@ -199,6 +217,7 @@ func (s *session) buildModel(nOpens int) {
 		m := &mvb{vb: o.Vb, tuples: map[ckTuple]bool{}}
 		m.resume = ckTuple{UUID: uint64(o.Off.VbUUID), Seq: o.Off.SeqNo, Start: o.Snap.StartSeqNo, End: o.Snap.EndSeqNo}
 		m.maxSettle = m.resume.Seq
+		m.maxTuple = m.resume
 		m.lastSent = m.resume.Seq
 		m.tuples[m.resume] = true
 		sv := s.srv[o.Vb]
@@ -400,6 +419,9 @@ func (s *session) rebalance(op hOp) {
 		s.old = s.old[len(s.old)-64:]
 	}
 	s.lo, s.hi = lo, lo+size-1
+	if s.onRebalance != nil {
+		s.lo, s.hi = s.onRebalance(op)
+	}
 	s.disc.set(uint16(s.lo), uint16(s.hi))
 	for vb, sv := range s.srv {
 		h := uint64(0)
@@ -431,6 +453,9 @@ func (s *session) rebalance(op hOp) {
 		})
 		s.label("ack_while_closed")
 	}
+	if s.scrapeClosed != nil && op.AtL {
+		s.hand.hook("ARS", s.scrapeClosed) // a scrape while the stream is closed inside the rebalance
+	}
 	ok, pv := within(20*time.Second, func() { s.st.Rebalance() })
 	if !ok || pv != nil {
 		s.fail("C04", "Rebalance() did not return cleanly (returned=%v panic=%v)", ok, pv)
@@ -458,6 +483,7 @@ func (s *session) rebalance(op hOp) {
 	s.buildModel(nOpens)
 	s.settledAtSave = map[uint16]int{}
 	s.genAtSave = map[uint16]int{}
+	s.rebalances++
 	s.label("rebalance")
 }
 
@@ -685,6 +711,7 @@ func (s *session) settle(m *mvb, ev *mev, countsForD bool) {
 	advanced := ev.ev.Seq > m.maxSettle
 	if advanced {
 		m.maxSettle = ev.ev.Seq
+		m.maxTuple = ev.tuple
 	}
 	// D (C05): the position was advanced by an acknowledgement or a non-document stream event
 	if countsForD && advanced {
